@@ -137,7 +137,7 @@ theorem readPrep_nrel (a : Acc) (hs : List ObjHdr) (seq : Nat) :
     (dbSelectAll_noRelease _ _ _ .refl), NoConfirmCb.state a _⟩
 
 theorem idleStage1_nrel (a : Acc) (f : Frag) (ctrl : AppCtrl) (func : Nat)
-    (objs : Except Nat (List ObjHdr)) (raw : List Nat) (a1 : Acc) (lr : Option LastReq)
+    (objs : Except Nat (List ObjHdr)) (raw : List Nat) (a1 : Acc) (lr : Option (LastReq × Bool))
     (heq : idleStage1 a f ctrl func objs raw = some (a1, lr)) : NRel a a1 := by
   unfold idleStage1 at heq
   split at heq
@@ -156,7 +156,9 @@ theorem idleStage1_nrel (a : Acc) (f : Frag) (ctrl : AppCtrl) (func : Nat)
       exact handleNonRead_nrel _ _ _ _ _ _ _ _ hn
   · cases heq
     refine NRel.same ?_ (NoConfirmCb.state _ _)
-    split <;> rfl
+    split
+    · split <;> rfl
+    · rfl
   · dsimp only at heq
     split at heq
     · cases heq
@@ -166,15 +168,24 @@ theorem idleStage1_nrel (a : Acc) (f : Frag) (ctrl : AppCtrl) (func : Nat)
   · cases heq; exact NRel.refl _
   · cases heq; exact NRel.refl _
 
-theorem idleStage2_nrel {a1 : Acc} {lr : Option LastReq} {f : Frag} {a' : Acc} (h : IdleStage2 a1 lr f a') :
+theorem idleStage2_nrel {a1 : Acc} {lr : Option (LastReq × Bool)} {f : Frag} {a' : Acc} (h : IdleStage2 a1 lr f a') :
     NRel a1 a' := by
   cases lr with
   | none => cases h; exact NRel.refl _
-  | some lr =>
-    rcases h with ⟨_, lr', e⟩ | ⟨r, a2, r2, lr', _, hw, e⟩
-    · subst e; exact NRel.same rfl (NoConfirmCb.state _ _)
-    · subst e
-      exact NRel.trans (writeSolicited_nrel _ _ _ _ _ hw) (NRel.same rfl (NoConfirmCb.state _ _))
+  | some p =>
+    obtain ⟨lr, echo⟩ := p
+    cases echo with
+    | false =>
+      rcases h with ⟨_, lr', e⟩ | ⟨r, a2, r2, lr', _, hw, e⟩
+      · subst e; exact NRel.same rfl (NoConfirmCb.state _ _)
+      · subst e
+        exact NRel.trans (writeSolicited_nrel _ _ _ _ _ hw) (NRel.same rfl (NoConfirmCb.state _ _))
+    | true =>
+      rcases h with ⟨_, e⟩ | ⟨r, _, e⟩
+      · subst e; exact NRel.same rfl (NoConfirmCb.state _ _)
+      · subst e
+        exact NRel.trans (NRel.ofFrame (repeatSolicited_frame _ _ _) rfl (by decide))
+          (NRel.same rfl (NoConfirmCb.state _ _))
 
 theorem handleRequestFromIdle_nrel (a : Acc) (f : Frag) (ctrl : AppCtrl) (func : Nat)
     (objs : Except Nat (List ObjHdr)) (raw : List Nat) (a' : Acc) (ser : Option Series)
@@ -297,6 +308,8 @@ theorem Ev.dbEffect {pf : Option Frag} {a a' : Acc} (h : Ev pf a a') : DbEffect 
     · exact NRel.same rfl (NoConfirmCb.state a _)
     · exact NRel.refl _
   | bcast f m ctrl func objs raw a' _ _ _ hp => exact Or.inl (processBroadcast_nrel _ _ _ _ _ _ _ _ hp)
+  | uwBcastSeen resp isNull retries dl f m ctrl func objs raw _ _ _ _ _ =>
+    exact Or.inl (NRel.same rfl (NoConfirmCb.state a _))
   | nonRead f ctrl func hs raw a' r _ _ _ _ hn => exact Or.inl (handleNonRead_nrel _ _ _ _ _ _ _ _ hn)
   | uwDisable resp isNull retries dl f ctrl hs raw _ _ => exact Or.inl (afterUnsolSeries_unconfirmed _ _)
   | deferSet f ctrl hs raw _ _ => exact Or.inl (NRel.same rfl (NoConfirmCb.state a _))
